@@ -235,3 +235,27 @@ add('B22', x4('SRC/?memory.c', "		return (SUPERLU_MAX(1, ?memory_usage(nzlmax, n
 add('B23', [('SRC/mc64ad.c', "	    dw[(*n << 1) + j] = fact;\n	    if (fact != 0.) {\n		fact = log(fact);", "	    dw[(*n << 1) + j] = fact;\n	    if (fact > 0.) {\n		fact = log(fact);")], [], ['C17'],
     note='job 5: positivity test instead of != 0 on the (linear) column maximum')
 add('B24', x4('SRC/?gstrf.c', "    descendants = (int *) int32Malloc(n + 1);", "    descendants = (int *) int32Calloc(n + 2);"), [], ['C19', 'C02'], note='scratch array allocated zeroed and one longer')
+
+# ---------------------------------------------------------------- benign edits aimed at the rules of DESIGN 12.11 (round 4)
+add('B25', x4('SRC/?gstrs.c', "work_col = &work[(size_t)j * (size_t)n];", "work_col = work + (size_t)j * (size_t)n;"), [], ['C05', 'C01'], note='column address of work[] by pointer arithmetic')
+add('B26', x4('SRC/?gsequ.c', "*rowcnd = SUPERLU_MAX( rcmin, smlnum ) / SUPERLU_MIN( rcmax, bignum );", "*rowcnd = SUPERLU_MAX( smlnum, rcmin ) / SUPERLU_MIN( bignum, rcmax );"), [], ['C11'],
+    note='operands of the clamps swapped')
+add('B27', x4('SRC/?gstrf.c', "new_next = nextlu + (xlsub[fsupc+1]-xlsub[fsupc])*(kcol-jcol+1);", "new_next = nextlu + (kcol + 1 - jcol) * (xlsub[fsupc+1]-xlsub[fsupc]);"), [], ['C07', 'C19'],
+    note='demand of a relaxed supernode written with commuted factors / terms')
+add('B28', x4('SRC/ilu_?column_dfs.c', "	if ( nextl == jptr ) jsuper = SLU_EMPTY;", "	if ( jptr >= nextl ) jsuper = SLU_EMPTY;"), [], ['C15', 'C03'], note='emptiness test written the other way round')
+add('B29', x4('SRC/?gssvx.c', "	if (colequ && *info == 0) {", "	if (*info == 0 && colequ) {"), [], ['C18'], note='conjuncts of the guard of the C[] check swapped')
+add('B30', [('SRC/sp_coletree.c', "	for (row = 0; row < nr; firstcol[row++] = nc);", "	for (row = 0; row < nr; row++) { firstcol[row] = nc; }")], [], ['C10'], note='priming loop with an explicit body')
+add('B31', [('SRC/colamd.c', "	    Col [c].shared2.order = --n_col2 ;\n	    KILL_PRINCIPAL_COL (c) ;\n	}\n    }\n    DEBUG1 ((\"colamd: null columns killed",
+             "	    --n_col2 ;\n	    Col [c].shared2.order = n_col2 ;\n	    KILL_PRINCIPAL_COL (c) ;\n	}\n    }\n    DEBUG1 ((\"colamd: null columns killed")], [], ['C10'],
+    note='pre-decrement as a statement of its own')
+add('B32', [('SRC/dzsum1.c', "	stemp += z_abs(&CX(i));\n/* L10: */", "	stemp = stemp + z_abs(&CX(i));\n/* L10: */")], [], ['C12'], note='accumulation written as s = s + term')
+add('B33', [('SRC/mc64ad.c', "		    if (di <= dnew) {\n			goto L155;\n		    }\n		    if (l[i__] >= low) {\n			goto L155;\n		    }",
+             "		    if (l[i__] >= low) {\n			goto L155;\n		    }\n		    if (di <= dnew) {\n			goto L155;\n		    }")], [], ['C17'], note='mc64wd_: the two exclusion tests in the other order')
+add('B34', [('SRC/mc64ad.c', "	    fact = 0.;\n	    i__2 = ip[j + 1] - 1;\n	    for (k = ip[j]; k <= i__2; ++k) {\n		dw[*n * 3 + k] = (d__1 = a[k], abs(d__1));",
+             "	    fact = 0.;\n	    d__2 = rinf / *n;\n	    i__2 = ip[j + 1] - 1;\n	    for (k = ip[j]; k <= i__2; ++k) {\n		dw[*n * 3 + k] = (d__1 = a[k], abs(d__1));"),
+            ('SRC/mc64ad.c', "		    dw[*n * 3 + k] = rinf / *n;", "		    dw[*n * 3 + k] = d__2;")], [], ['C17'], note='job 5: the infinite cost hoisted into a local')
+add('B35', [('SRC/dgsrfs.c', "			irow = Astore->rowind[i];\n			s += fabs(Aval[i]) * fabs(Xptr[irow]);", "			s += fabs(Aval[i]) * fabs(Xptr[Astore->rowind[i]]);"),
+            ('SRC/sgsrfs.c', "			irow = Astore->rowind[i];\n			s += fabs(Aval[i]) * fabs(Xptr[irow]);", "			s += fabs(Aval[i]) * fabs(Xptr[Astore->rowind[i]]);"),
+            ('SRC/cgsrfs.c', "			irow = Astore->rowind[i];\n			s += c_abs1(&Aval[i]) * c_abs1(&Xptr[irow]);", "			s += c_abs1(&Aval[i]) * c_abs1(&Xptr[Astore->rowind[i]]);"),
+            ('SRC/zgsrfs.c', "			irow = Astore->rowind[i];\n			s += z_abs1(&Aval[i]) * z_abs1(&Xptr[irow]);", "			s += z_abs1(&Aval[i]) * z_abs1(&Xptr[Astore->rowind[i]]);")], [], ['C13'],
+    note='row index used inline in the transposed |A||x| sum (all four variants; a one-sided version of this edit is reported by the d~z skeleton rule, by design)')
